@@ -180,7 +180,13 @@ func cmdCheck(args []string) int {
 	}
 	opts := SolveOpts{Timeout: timeout, Workers: 16, Thorough: *tier == "thorough"}
 	var results []*FuncResult
+	inRepoTrusted := map[string]bool{}
 	for _, fs := range specs {
+		if fs.Trusted != "" {
+			// an in-repo function whose contract is assumed, not proved (stated reason)
+			inRepoTrusted[fmt.Sprintf("in-repo function %s.%s: contract ASSUMED, not proved (%s)", shortPkg(fs.PkgPath), fs.Key, fs.Trusted)] = true
+			continue
+		}
 		for _, m := range modesOf(fs) {
 			r := verifyFunc(prog, fs, m, opts)
 			results = append(results, r)
@@ -320,6 +326,9 @@ func cmdCheck(args []string) int {
 	}
 	for k := range usedAssumed {
 		trusted["assumed contract: "+k] = true
+	}
+	for k := range inRepoTrusted {
+		trusted[k] = true
 	}
 	trusted["gocv VC generator (Go semantics of the verified subset, DESIGN.md 2.3) and the SMT solvers"] = true
 	cov.TrustedBase = sortedSet(trusted)
